@@ -9,6 +9,8 @@ R15.4 merge discipline of per-process / per-loom attributes: set-and-different i
 """
 import re
 
+import itertools
+
 from ovsa import absint, effects, errflow
 from ovsa.absint import INT, NULL, PTR, TOP
 
@@ -359,6 +361,65 @@ def run(ctx):
             ctx.check(not acc, "R15.4", "create_thread:duplicate-tid", ct.loc(), "a second stream with the same TID is accepted")
         else:
             ctx.check(bool(acc), "R15.4", "create_thread:new-tid", ct.loc(), "a new thread is refused")
+    # ---- per-loom merge results that must not depend on the order of the processes / CPUs ---------------
+    LOOMC = "src/emu/loom.c"
+    HHN = F("UT_hash_handle", "next")
+    srm = prog.fn("loom_set_rank_min", LOOMC)
+    IMAX = 2 ** 31 - 1
+    DBG = (("G", "src/common.c", "is_debug_enabled"), ())
+    for n_ in (1, 2, 3):
+        for ranks in itertools.product((-1, 0, 5), repeat=n_):
+            store = {DBG: INT(0), ("L", F("loom", "rank_min")): INT(IMAX), ("L", F("loom", "rank_enabled")): INT(0),
+                     ("L", F("loom", "procs")): PTR("P0")}
+            for i_, r_ in enumerate(ranks):
+                store[("P%d" % i_, F("proc", "rank"))] = INT(r_)
+                store[("P%d" % i_, F("proc", "hh") + HHN)] = PTR("P%d" % (i_ + 1)) if i_ + 1 < n_ else NULL
+            exr = absint.Explorer(prog, effects=eff, loop_bound=n_ + 3)
+            outs = [o for o in exr.run(srm, [PTR("L")], store) if o.kind == "ret"]
+            acc = [o for o in outs if o.ret == INT(0)]
+            have = [r_ for r_ in ranks if r_ >= 0]
+            mixed = bool(have) and len(have) != len(ranks)
+            inst = "loom_set_rank_min:ranks=%s" % (list(ranks),)
+            if mixed:
+                ctx.check(bool(outs) and not acc, "R15.4", inst, srm.loc(),
+                          "a loom in which some processes have a rank and others have none is accepted when the "
+                          "processes come in the order %s (it must be refused whatever the order)" % (list(ranks),))
+            else:
+                good = bool(acc) and len(acc) == len(outs) and all(
+                    o.store.get(("L", F("loom", "rank_enabled"))) == INT(1 if have else 0) and
+                    o.store.get(("L", F("loom", "rank_min"))) == INT(min(have) if have else IMAX) for o in acc)
+                ctx.check(good, "R15.4", inst, srm.loc(),
+                          "consistent rank information %s is refused, or rank_enabled / rank_min come out as %s" %
+                          (list(ranks), [(str(o.store.get(("L", F("loom", "rank_enabled")))),
+                                          str(o.store.get(("L", F("loom", "rank_min"))))) for o in acc]))
+    lie = prog.fn("loom_init_end", LOOMC)
+    for idxs in ((0,), (0, 1), (1, 0), (0, 2), (2, 0), (1, 2), (0, 1, 2), (2, 1, 0), (0, 1, 3), (0, 0), (-1, 0)):
+        n_ = len(idxs)
+        store = {DBG: INT(0), ("L", F("loom", "rank_enabled")): INT(0), ("L", F("loom", "rank_min")): INT(IMAX),
+                 ("L", F("loom", "ncpus")): INT(n_), ("L", F("loom", "nprocs")): INT(1), ("L", F("loom", "cpus")): PTR("C0")}
+        for i_, ix in enumerate(idxs):
+            store[("C%d" % i_, F("cpu", "index"))] = INT(ix)
+            store[("C%d" % i_, F("cpu", "hh") + HHN)] = PTR("C%d" % (i_ + 1)) if i_ + 1 < n_ else NULL
+
+        def s_calloc(ex_, st, a, f, e, n_=n_):
+            return [(PTR("ARR", (0,)), {("ARR", (k_,)): NULL for k_ in range(n_)})]
+        exl = absint.Explorer(prog, effects=eff, loop_bound=n_ + 3, summaries={"calloc": s_calloc},
+                              inline=lambda nm, d: nm in ("cpu_get_index",))
+        outs = [o for o in exl.run(lie, [PTR("L")], store) if o.kind == "ret"]
+        acc = [o for o in outs if o.ret == INT(0)]
+        valid = sorted(idxs) == list(range(n_))
+        inst = "loom_init_end:cpu-indices=%s" % (list(idxs),)
+        if valid:
+            good = bool(acc) and len(acc) == len(outs) and all(
+                all(o.store.get(("ARR", (ix,))) == PTR("C%d" % i_) for i_, ix in enumerate(idxs)) for o in acc)
+            ctx.check(good, "R15.4", inst, lie.loc(), "a loom whose CPUs are numbered %s is refused or its index table is wrong" % (list(idxs),))
+        else:
+            oob = [k for o in outs for k in o.store if k[0] == "ARR" and (k[1][0] < 0 or k[1][0] >= n_)]
+            ctx.check(bool(outs) and not acc and not oob, "R15.4", inst, lie.loc(),
+                      "a loom of %d CPUs numbered %s (not exactly 0..%d) is %s%s" %
+                      (n_, list(idxs), n_ - 1, "accepted" if acc else "not evaluated",
+                       "; the index table is written outside its bounds" if oob else ""))
+
     # merging and ordering walk each list through its own link (every process of every loom, every thread ...)
     from rules import listlinks
     listlinks.check(ctx, "R15.3", lambda file, name: file in ("src/emu/system.c", "src/emu/loom.c", "src/emu/proc.c"),
